@@ -477,6 +477,8 @@ pub fn explore(ctx: &mut Ctx, label: &str) {
             }
         }
     }
+    // ---- sequences of ontologies built one after the other at the same address
+    super::common::ontology_sequences(ctx, label, Mode::Minimal, &mut super::common::obs_oracle(Mode::Minimal));
 }
 
 /// sub_ontology with the exact oracle of C14 (kept records list exactly the retained subset of their direct
